@@ -71,6 +71,8 @@ def run_case(case):
         feq_field = f.getAllData().copy()
         gi = sim.global_index_arrays(l)
         fields = [('equilibrium', feq_field), ('dense', feq_field * (1 + 0.3 * np.sin(1.0 + gi[0] * 1.3 + gi[1] * 0.7 + gi[2] * 2.1 + gi[3] * 0.9)))]
+        # amplitudes far from 1: nothing may be treated as zero by an absolute tolerance (density is linear in f)
+        fields.append(('tiny', 1e-11 * (1 + 0.3 * np.sin(1.0 + gi[0] * 1.3 + gi[1] * 0.7 + gi[2] * 2.1 + gi[3] * 0.9))))
         shp = feq_field.shape
         for pos in itertools.product(*[sorted(set([0, n - 1])) for n in shp[:3]]):
             for lv in range(nv):
@@ -92,7 +94,7 @@ def run_case(case):
                         d_.getRho(f, rho)
                         want = np.einsum('ijkl,l->ijk', F, w)
                     got = rho.getAllData()
-                    tol = 64 * EPS * cond * (S.d + 1) * span * max(1e-300, np.abs(F).max() + np.abs(feq).max())
+                    tol = 64 * EPS * cond * (S.d + 1) * span * max(1e-300, np.abs(F).max() + (np.abs(feq).max() if which == 'perturbed' else 0.0))
                     if case['complex'] and not (np.abs(got.imag).max() == 0):
                         probs.append(('imaginary-part-not-zero', '%s %s call %d: imaginary part %r' % (name, which, call, np.abs(got.imag).max())))
                     err = np.abs(got.real - want).max() if not np.isnan(got.real).any() else np.inf
